@@ -76,6 +76,7 @@ type dt1 struct {
 	setObj   types.Object
 	nullObj  types.Object
 	peObj    types.Object
+	wordObj  types.Object // in a helper: the parameter that was handed pe.Word
 	caseTag  map[ast.Expr]ast.Expr
 	labelOf  map[*cfg.Block]string
 	setFn    *core.Func
@@ -84,6 +85,11 @@ type dt1 struct {
 }
 
 func (d *dt1) isPeField(e ast.Expr, field string) bool {
+	if field == "Word" && d.wordObj != nil {
+		if id, ok := ast.Unparen(e).(*ast.Ident); ok && d.info.Uses[id] == d.wordObj {
+			return true
+		}
+	}
 	se, ok := ast.Unparen(e).(*ast.SelectorExpr)
 	if !ok || se.Sel.Name != field {
 		return false
@@ -380,6 +386,10 @@ func (d *dt1) helperOf(fo *types.Func, call *ast.CallExpr) *core.Func {
 		if id, ok := ast.Unparen(a).(*ast.Ident); ok && d.info.Uses[id] == d.peObj && d.peObj != nil {
 			return h
 		}
+		// or the word of the expansion (`env.expandInto(fields, pe.Word, mode)`)
+		if d.isPeField(a, "Word") {
+			return h
+		}
 	}
 	return nil
 }
@@ -397,6 +407,10 @@ func (d *dt1) summary(h *core.Func, call *ast.CallExpr) []string {
 			if k < len(call.Args) {
 				if id, ok := ast.Unparen(call.Args[k]).(*ast.Ident); ok && d.info.Uses[id] == d.peObj {
 					hd.peObj = hd.info.Defs[nm]
+				} else if d.isPeField(call.Args[k], "Word") {
+					if wv, isVar := hd.info.Defs[nm].(*types.Var); isVar && !reassigned(h, wv) {
+						hd.wordObj = wv
+					}
 				}
 			}
 			k++
@@ -624,6 +638,9 @@ func ruleDT1() Rule {
 				}
 				return true
 			})
+			if d.setObj == nil || d.nullObj == nil {
+				d.rolesThroughLookup()
+			}
 			if d.peObj == nil || d.setObj == nil || d.nullObj == nil || d.setFn == nil || d.expandFn == nil {
 				rr.Unk(f, f.Name+"|roles", f.Pos(), fmt.Sprintf("could not resolve the roles (pe=%v set=%v null=%v Set=%v expand=%v): the decision table cannot be extracted", d.peObj != nil, d.setObj != nil, d.nullObj != nil, d.setFn != nil, d.expandFn != nil))
 				return
@@ -751,4 +768,132 @@ func (d *dt1) isPeNameValue(e ast.Expr) bool {
 		return false
 	}
 	return d.isPeField(se.X, "Name")
+}
+
+// rolesThroughLookup resolves the set/null flags when the look-up of the
+// parameter lives in a helper: the helper's cell that receives Get's second
+// result (a named result, or a field of the record it returns) is followed to
+// the local of expandParam that is bound to it.
+func (d *dt1) rolesThroughLookup() {
+	f, info := d.f, d.info
+	type cell struct {
+		h      *core.Func
+		result int        // index of the named result, or -1
+		field  *types.Var // field of the returned record, or nil
+	}
+	find := func(h *core.Func) (set, null *cell) {
+		hi := h.Info()
+		toCell := func(e ast.Expr) *cell {
+			switch x := ast.Unparen(e).(type) {
+			case *ast.Ident:
+				o := hi.Uses[x]
+				if o == nil {
+					o = hi.Defs[x]
+				}
+				k := 0
+				if h.Type.Results != nil {
+					for _, fld := range h.Type.Results.List {
+						for _, nm := range fld.Names {
+							if hi.Defs[nm] == o && o != nil {
+								return &cell{h: h, result: k}
+							}
+							k++
+						}
+					}
+				}
+			case *ast.SelectorExpr:
+				if v := core.FieldOf(hi, x); v != nil {
+					return &cell{h: h, result: -1, field: v}
+				}
+			}
+			return nil
+		}
+		h.OwnNodes(func(n ast.Node) bool {
+			as, ok := n.(*ast.AssignStmt)
+			if !ok {
+				return true
+			}
+			if len(as.Lhs) == 2 && len(as.Rhs) == 1 {
+				if call, ok := as.Rhs[0].(*ast.CallExpr); ok && strings.HasSuffix(calleeName(hi, call), "(*ExecEnv).Get") {
+					set = toCell(as.Lhs[1])
+				}
+			}
+			if len(as.Lhs) == 1 && len(as.Rhs) == 1 {
+				if be, ok := ast.Unparen(as.Rhs[0]).(*ast.BinaryExpr); ok && be.Op == token.EQL {
+					if sv, ok := constStr(hi, be.Y); ok && sv == "" {
+						if cl := toCell(as.Lhs[0]); cl != nil {
+							null = cl
+						}
+					}
+				}
+			}
+			return true
+		})
+		return
+	}
+	f.OwnNodes(func(n ast.Node) bool {
+		as, ok := n.(*ast.AssignStmt)
+		if !ok || len(as.Rhs) != 1 {
+			return true
+		}
+		call, ok := ast.Unparen(as.Rhs[0]).(*ast.CallExpr)
+		if !ok {
+			return true
+		}
+		fo := core.StaticCallee(info, call)
+		if fo == nil {
+			return true
+		}
+		h := d.c.P.FuncOf(fo)
+		if h == nil || h == f || h.Pkg != f.Pkg || h.Body == nil || h.Decl == nil {
+			return true
+		}
+		set, null := find(h)
+		if set == nil || null == nil {
+			return true
+		}
+		bind := func(cl *cell) types.Object {
+			if cl.result >= 0 {
+				if cl.result < len(as.Lhs) && len(as.Lhs) > 1 {
+					if id, ok := as.Lhs[cl.result].(*ast.Ident); ok {
+						if o := info.Defs[id]; o != nil {
+							return o
+						}
+						return info.Uses[id]
+					}
+				}
+				return nil
+			}
+			// a field of the record: the local of f that is defined from that field
+			var out types.Object
+			f.OwnNodes(func(m ast.Node) bool {
+				a2, ok := m.(*ast.AssignStmt)
+				if !ok || len(a2.Lhs) != len(a2.Rhs) {
+					return true
+				}
+				for i, r := range a2.Rhs {
+					if se, ok := ast.Unparen(r).(*ast.SelectorExpr); ok && core.FieldOf(info, se) == cl.field {
+						if id, ok := a2.Lhs[i].(*ast.Ident); ok {
+							if o := info.Defs[id]; o != nil {
+								out = o
+							} else {
+								out = info.Uses[id]
+							}
+						}
+					}
+				}
+				return true
+			})
+			return out
+		}
+		so, no := bind(set), bind(null)
+		if so != nil && no != nil {
+			if sv, ok := so.(*types.Var); ok && !reassigned(f, sv) {
+				if nv, ok := no.(*types.Var); ok && !reassigned(f, nv) {
+					d.setObj, d.nullObj = so, no
+				}
+			}
+		}
+		return true
+	})
 }
